@@ -394,6 +394,14 @@ class C12(Property):
                 else:
                     script.append(["remove", k, p])
             threads.append(script)
+        # Drain racing the other calls; Stop racing everything (at most one, late in one goroutine's script)
+        for script in threads:
+            for j in range(len(script)):
+                if rng.random() < 0.04:
+                    script[j] = ["drain", rng.choice([0, 1, 20])]
+        if rng.random() < 0.3:
+            script = rng.choice(threads)
+            script.insert(rng.randint(len(script) // 2, len(script)), ["stop", rng.choice([0, 1, 20])])
         return {"kind": "free", "n": ns, "interval": interval, "threads": threads,
                 "ticks": rng.randint(20, 60), "tick_pause_us": rng.choice([0, 1, 50, 100, 200])}
 
@@ -420,7 +428,7 @@ class C12(Property):
                 fr = r.get("free") or {}
                 th = fr.get("threads") or []
                 if len(th) != len(c["threads"]) or any(len(a or []) != len(b) for a, b in zip(th, c["threads"])) \
-                        or any(o["r"] != 0 for a in th for o in a):
+                        or any(o["r"] not in (0, 2) for a in th for o in a):
                     raise ExecError("c12 executor: free case %s: incomplete or rejected calls" % r.get("id"))
                 obs.append({"obs": [], "free": fr})
                 continue
@@ -506,7 +514,15 @@ class C12(Property):
             evs = []
             for script, log in zip(case["threads"], obs["free"]["threads"]):
                 for o, l in zip(script, log):
-                    evs.append("(%s, %s, %s)" % (cz(l["s"]), cz(l["e"]), self._op(o[:-1])))
+                    if o[0] == "drain":
+                        fop = "FDrain %s" % self._fired(l.get("f") or [])
+                    elif o[0] == "stop":
+                        fop = "FStop"
+                        # the run loop notices the closed channel at some later point, possibly after Stop returned
+                        evs.append("(%s, %s, FExit, ROk)" % (cz(l["s"]), cz(10 ** 18)))
+                    else:
+                        fop = "FReq (%s)" % self._op(o[:-1])
+                    evs.append("(%s, %s, %s, %s)" % (cz(l["s"]), cz(l["e"]), fop, RES[l["r"]]))
             tks = ["(%s, %s, %s)" % (cz(t["s"]), cz(t["e"]), self._fired(t["f"])) for t in obs["free"]["ticks"]]
             return "CFree %s %s %s %s" % (cz(case["n"]), cz(case["interval"]), clist(evs), clist(tks))
         if kind == "wheel":
@@ -648,6 +664,10 @@ class C12(Property):
                 fs.append("evicting_set")
         if kind == "free":
             fs.append("threads=%d" % len(case["threads"]))
+            if any(o[0] == "drain" for th in case["threads"] for o in th):
+                fs.append("free_drain")
+            if any(o[0] == "stop" for th in case["threads"] for o in th):
+                fs.append("free_stop")
             fs.append("overlaps=%d" % min(9, sum(1 for th in obs["free"]["threads"] for o in th if o["e"] - o["s"] > 1)))
             fs.append("fired=%d" % min(9, sum(len(t["f"]) for t in obs["free"]["ticks"])))
             return fs
